@@ -229,6 +229,16 @@ pub fn fixed_pool() -> Vec<Value> {
     p.push(Value::make_time(Time::from_hms(0, 0, 0).unwrap()));
     p.push(Value::make_time(Time::from_hms_milli(0, 0, 0, 1).unwrap()));
     p.push(Value::make_time(Time::from_hms(23, 59, 59).unwrap()));
+    // times (and timestamps) that differ only below the millisecond
+    for ns in [1u32, 2, 999, 1_000, 1_000_001, 1_000_002] {
+        p.push(Value::make_time(Time::from(chrono::NaiveTime::from_hms_nano_opt(12, 30, 15, ns).unwrap())));
+    }
+    {
+        use chrono::TimeZone;
+        for ns in [1u32, 2, 1_000_001] {
+            p.push(Value::make_datetime(DateTime::from(chrono_tz::UTC.timestamp_opt(1_600_000_000, ns).unwrap())));
+        }
+    }
     for z in ["UTC", "America/New_York", "Europe/London", "Asia/Kolkata"] {
         p.push(dt(1_600_000_000, z));
         p.push(dt(1_600_000_001, z));
@@ -278,6 +288,13 @@ pub fn dict_pool() -> Vec<Dict> {
         dict_of(&[("b", n(0.0)), ("c", n(5.0))]),
         dict_of(&[("a", Value::make_dict(dict_of(&[("x", n(1.0))])))]),
         dict_of(&[("a", Value::make_dict(dict_of(&[("x", n(2.0))])))]),
+        // records (with an id) mixed with plain dicts: an order that looks at ids first breaks transitivity
+        dict_of(&[("id", Value::make_ref("a")), ("z", Value::Marker)]),
+        dict_of(&[("a", Value::Marker), ("id", Value::make_ref("b"))]),
+        dict_of(&[("id", Value::make_ref("b")), ("z", Value::Marker)]),
+        dict_of(&[("id", Value::make_ref_with_dis("a", "A")), ("y", n(1.0))]),
+        dict_of(&[("b", Value::Marker)]),
+        dict_of(&[("id", n(1.0))]),
     ]
 }
 
@@ -340,7 +357,7 @@ fn small_value(rng: &mut Rng, depth: usize) -> Value {
         10 => {
             let mut d = Dict::new();
             for _ in 0..rng.below(3) {
-                d.insert(rng.pick(&["a", "b", "c"]).to_string(), small_value(rng, depth - 1));
+                d.insert(rng.pick(&["a", "b", "c", "id", "z"]).to_string(), small_value(rng, depth - 1));
             }
             Value::make_dict(d)
         }
